@@ -13,6 +13,7 @@ Protocol for C06 (see `harness/c06_ops.py` for the writer):
 * fm: `bits:signed:region:h:w:d:h0:h1:w0:a0:a1:a2:a3:hasQuant:zp:nhcwb16:hasStrides:sy:sx:sc:scaled`
 
 answer: `model=<eq|diff@i:<model>:<real>|len:<m>:<r>|err:kind> elided=<n> | <spec verdict of Spec/OpCheck.lean>`
+`c06p …` is the same for streams of compiled networks (IFM extent not compared);
 `c06model …` answers only the model part (used for the malformed stream, where no words exist).
 -/
 namespace VelaVerif.Handlers.Emit
@@ -118,6 +119,12 @@ def handle : List String → Option String
     let ops ← ((← kv toks "ops").splitOn ";").mapM parseOp
     let words ← parseNats (((← kv toks "words").splitOn ",").filter (· ≠ ""))
     some (modelVerdict arch ops (some words) ++ " | " ++ OpCheck.verdict row arch ops words)
+  | "c06p" :: toks => do
+    -- streams of compiled networks: the declared IFM extent may exceed what the kernel walks over
+    let (row, arch) ← archOf (← parseNat? (← kv toks "acc"))
+    let ops ← ((← kv toks "ops").splitOn ";").mapM parseOp
+    let words ← parseNats (((← kv toks "words").splitOn ",").filter (· ≠ ""))
+    some (modelVerdict arch ops (some words) ++ " | " ++ OpCheck.verdict row arch ops words (strict := false))
   | "c06model" :: toks => do
     let (_, arch) ← archOf (← parseNat? (← kv toks "acc"))
     let ops ← ((← kv toks "ops").splitOn ";").mapM parseOp
